@@ -6,6 +6,9 @@ C02 — Rendering never panics and never writes outside the viewport.
                               `render` of any scene whose clip-space vertices come from the library's
                               perspective matrix completes without a panic, through the library's
                               viewport matrix for a rectangle inside the buffer
+  `Retro.Props.C02.Confined`: `render_viewport_confined` — every pixel outside the viewport rectangle keeps
+                              its colour and depth (per-pixel semantics of the draw loop from C06)
 -/
 import Retro.Props.C02.Links
 import Retro.Props.C02.NoPanic
+import Retro.Props.C02.Confined
